@@ -12,6 +12,7 @@ GENERATORS = {
     "AdjProg_gen": "translator.gen_adjprog",
     "SetIter_gen": "translator.gen_setiter",
     "LagOffset_gen": "translator.gen_lagoffset",
+    "Derivable_gen": "translator.gen_derivable",
 }
 
 
